@@ -49,10 +49,15 @@ def asynchb_twins(rep, tier, seed):
             "promotion": b(Type="promotion", MRA=True, Vals={0, 1, 2, 3}), "promotion_nockpt": b(Type="promotion", Ckpt=False),
             "pasha": b(Type="pasha", LevelsC={1, 2, 4}, MaxT=8, Vals={0, 1, 2}, MRA=True),
             "cost_promotion": b(Type="cost_promotion", Costs={1, 2}, MRA=True),
-            "rush_stopping": b(Type="rush_stopping", NThr=1)}
+            "rush_stopping": b(Type="rush_stopping", NThr=1),
+            # two threshold candidates (the first points_to_evaluate): the threshold of a level is the better of their values
+            "rush_stopping_2": b(Type="rush_stopping", NThr=2, NT=4, Vals={0, 1, 2, 3}),
+            "rush_promotion_2": b(Type="rush_promotion", NThr=2, NT=4, MRA=True, Vals={0, 1, 2, 3})}
     total = {}
     for name, c in tabs.items():
-        g = AC.gen(c, 16 if tier == "quick" else 22, 12 if tier == "quick" else 150, seed * 577 + len(name))
+        # (the threshold rule of RUSH only bites when a later trial lies between two candidates: more schedules)
+        num = (12 if tier == "quick" else 150) * (8 if name.endswith("_2") else 1)
+        g = AC.gen(c, 16 if tier == "quick" else 22, num, seed * 577 + len(name))
         conf_a = DA.conf_from_constants(c)
         conf_b = dict(conf_a, min=not conf_a["min"])
         traces, meta = [], []
